@@ -42,8 +42,21 @@ package concurrencylimiter
 //@   entry ghost recvd = 0
 //@   call recv assert arg0 == h.l.ch
 //@   call recv ghost recvd = recvd + 1
-//@   call dynamic assume h.l == old(h.l) && (recvd == 1 ==> (h.status == 1 || h.status == 2)) && (recvd == 0 ==> h.status == old(h.status))
+//@   ghost st int                         // the status word right after this operation's own compare-and-swap
+//@   call atomic.CompareAndSwap ghost st = h.status
+//@   call dynamic assume h.l == old(h.l) && (recvd == 1 ==> (h.status == 1 || h.status == 2)) && (recvd == 0 ==> h.status == st)
 //@   call holder.block$1 ghost sent = sent + callee_sent
 //@   ensures recvd == ite(old(h.status) == 0, 1, 0)
 //@   ensures old(h.status) != 0 ==> sent == 0 && h.status == old(h.status)
 //@   ensures old(h.status) == 0 ==> sent <= 1 && (sent == 1 <==> h.status == 0) && (h.status == 0 || h.status == 2)
+
+// Acquire: a token is put into the limiter channel iff a holder is created for it (whose release gives it back);
+// without a limiter, or when the context is done first, nothing is taken.
+//@ func Acquire
+//@   ghost sent int
+//@   ghost made int
+//@   entry ghost sent = 0
+//@   entry ghost made = 0
+//@   call select.send ghost sent = sent + 1
+//@   call WithValue ghost made = made + 1
+//@   ensures sent == made && sent <= 1
